@@ -72,7 +72,7 @@ class Universe:
         for fname, blocks in info['blocks'].items():
             for b in blocks:
                 fnpath = None
-                if b['directive'] in ('fn', 'loop', 'before', 'after', 'inline', 'inline-after', 'body-start', 'loop-body', 'loop-end'):
+                if b['directive'] in ('fn', 'loop', 'before', 'after', 'inline', 'inline-after', 'body-start', 'loop-body', 'loop-end', 'wrap-arg'):
                     fnpath = split_args(b['args'])[0]
                 if b['directive'] == 'fn':
                     m = re.search(r'nopanic=([A-Z0-9,]+)', b['args'])
